@@ -18,13 +18,16 @@ import (
 	"math"
 	"math/rand/v2"
 	"net"
+	"net/rpc"
 	"os"
 	"path/filepath"
+	"reflect"
 	"sort"
 	"strconv"
 	"strings"
 	"sync"
 	"time"
+	"unsafe"
 
 	"github.com/google/uuid"
 	"github.com/semafind/semadb/cluster"
@@ -46,24 +49,47 @@ type c17Cluster struct {
 }
 
 var c17PortMu sync.Mutex
-var c17PortsUsed = map[int]bool{}
+
+// ports below the ephemeral range (an outgoing RPC connection can never sit on a port a node is about to
+// bind), starting at a per-process offset; a candidate is used only if it can be bound right now
+const c17PortLo, c17PortHi = 24000, 32000
+
+var c17NextPort = c17PortLo + (os.Getpid()*37)%(c17PortHi-c17PortLo)
 
 func c17FreePort() (int, error) {
 	c17PortMu.Lock()
 	defer c17PortMu.Unlock()
-	for try := 0; try < 50; try++ {
-		l, err := net.Listen("tcp", "127.0.0.1:0")
+	for try := 0; try < c17PortHi-c17PortLo; try++ {
+		p := c17NextPort
+		c17NextPort++
+		if c17NextPort >= c17PortHi {
+			c17NextPort = c17PortLo
+		}
+		l, err := net.Listen("tcp", "127.0.0.1:"+strconv.Itoa(p))
 		if err != nil {
-			return 0, err
+			continue
 		}
-		port := l.Addr().(*net.TCPAddr).Port
 		l.Close()
-		if !c17PortsUsed[port] {
-			c17PortsUsed[port] = true
-			return port, nil
-		}
+		return p, nil
 	}
 	return 0, fmt.Errorf("no free loopback port found")
+}
+
+// closeClients (clean-up only, after a history): ClusterNode keeps its outgoing RPC connections for ever and
+// Close() does not end them; closing the clients lets both ends of every connection go away so that
+// thousands of deployments in one process do not run out of file descriptors.
+func c17CloseClients(nd *cluster.ClusterNode) {
+	v := reflect.ValueOf(nd).Elem().FieldByName("rpcClients")
+	if !v.IsValid() || v.Kind() != reflect.Map {
+		return
+	}
+	m, ok := reflect.NewAt(v.Type(), unsafe.Pointer(v.UnsafeAddr())).Elem().Interface().(map[string]*rpc.Client)
+	if !ok {
+		return
+	}
+	for _, c := range m {
+		c.Close()
+	}
 }
 
 func c17Start(n int, maxCount int64) (*c17Cluster, error) {
@@ -87,7 +113,7 @@ func c17Start(n int, maxCount int64) (*c17Cluster, error) {
 			RootDir:            dir,
 			RpcHost:            "localhost",
 			RpcPort:            ports[i],
-			RpcTimeout:         2,
+			RpcTimeout:         5,
 			RpcRetries:         1,
 			Servers:            append([]string{}, cl.servers...),
 			ShardManager:       cluster.ShardManagerConfig{RootDir: dir, ShardTimeout: 300, MaxCacheSize: -1},
@@ -148,6 +174,9 @@ func (cl *c17Cluster) stop(col *models.Collection) {
 			nd.Close()
 			cl.closed[i] = true
 		}
+	}
+	for _, nd := range cl.nodes {
+		c17CloseClients(nd)
 	}
 	os.RemoveAll(cl.tmp)
 }
@@ -831,11 +860,11 @@ func c17CurateCase(r *rand.Rand) string {
 // ---------------------------------------------------------------- driver
 
 func runC17(rc *runCtx) error {
-	nsmall, nbig, ncur := 36, 3, 300
-	nfiles := 6
+	nsmall, nbig, ncur := 108, 6, 400
+	nfiles := 8
 	if rc.thorough() {
-		nsmall, nbig, ncur = 540, 18, 4000
-		nfiles = 12
+		nsmall, nbig, ncur = 1620, 60, 6000
+		nfiles = 16
 	}
 	if rc.n != 0 {
 		nsmall = rc.n
